@@ -6,8 +6,10 @@
    specialised + ground regions, fixed = the fixed modules' rectangles; the die
    decomposition itself is property C01) and the modules of the netlist as the
    Netlist object holds them when the call is made.  math.sqrt is the section
-   variable [sqrt_o]; the tolerance 1e-6 of _detect_fixed_rectangles and the
-   class-wide area epsilon are the parameters [feps], [aeps]. *)
+   variable [sqrt_o]; the tolerance 1e-6 of _detect_fixed_rectangles, the rounding
+   allowance 1e-9 of the ratios and the class-wide area epsilon are the parameters
+   [feps], [ceps], [aeps].  The model mirrors the code repaired by
+   fixes/C03-ratio-rounding.diff. *)
 From FrameModel Require Import Num.QcTac Geometry.Rect Alloc.Alloc.
 Open Scope list_scope.
 Open Scope Qc_scope.
@@ -83,15 +85,19 @@ Definition counts_ok (fms : list nmod) (fr : list (Rect * string)) : bool :=
   forallb (fun m => Nat.eqb (List.length (mrects m)) (count_name (mname m) (map snd fr))) fms.
 
 (* ---- the map of a non-fixed cell ---- *)
-Definition alloc_of (inc0 : bool) (ms : list nmod) (c : Rect) : alloc :=
-  flat_map (fun m => let a := cov_ratio c (mrects m) in
+(* (repaired code, fixes/C03-ratio-rounding.diff) a sum of quotients that exceeds 1 by rounding
+   noise only - at most [ceps] - is 1: the cell is fully covered *)
+Definition clamp1 (ceps a : Qc) : Qc := if Qcltb 1 a && Qcleb a (1 + ceps) then 1 else a.
+
+Definition alloc_of (ceps : Qc) (inc0 : bool) (ms : list nmod) (c : Rect) : alloc :=
+  flat_map (fun m => let a := clamp1 ceps (cov_ratio c (mrects m)) in
                      if inc0 || Qcltb 0 a then [(mname m, a)] else []) ms.
 
 Definition prealloc (fr : list (Rect * string)) : list cell :=
   map (fun p => mkCell (fst p) [(snd p, 1)] 0%nat) fr.
-Definition rest_alloc (inc0 : bool) (ms : list nmod) (cells : list cell) : list cell :=
+Definition rest_alloc (ceps : Qc) (inc0 : bool) (ms : list nmod) (cells : list cell) : list cell :=
   flat_map (fun c => if fixed (crect c) then []
-                     else [mkCell (crect c) (alloc_of inc0 ms (crect c)) (cdepth c)]) cells.
+                     else [mkCell (crect c) (alloc_of ceps inc0 ms (crect c)) (cdepth c)]) cells.
 
 (* Allocation(new_alloc): the assertions come first, the division by the module's area last *)
 Definition finalize (aeps : Qc) (new : list cell) : result :=
@@ -143,7 +149,7 @@ Section Initial.
     end.
 
   (* create_initial_allocation(die, include_area_zero) *)
-  Definition initial_allocation (feps aeps : Qc) (inc0 : bool)
+  Definition initial_allocation (feps ceps aeps : Qc) (inc0 : bool)
              (refinable fixed_rs : list Rect) (mods : list nmod) : result :=
     match mk_allocation aeps (init_cells refinable fixed_rs) with
     | None => Reject RCells
@@ -156,7 +162,7 @@ Section Initial.
             | None => Reject RFixedRatio
             | Some (cells', fr) =>
                 if counts_ok fms fr
-                then finalize aeps (prealloc fr ++ rest_alloc inc0 ms cells')
+                then finalize aeps (prealloc fr ++ rest_alloc ceps inc0 ms cells')
                 else Reject RFixedCount
             end
         end
